@@ -625,11 +625,49 @@ REACT = {}        # node id -> {'recv': path from the root, 'call': call}
 RSTATE = {'root': None, 'fuel': 0, 'depth': 0, 'stack': [0], 'next': 1, 'calls': []}
 
 
+PRE_OBJS = {}      # before the call: absolute path (tuple) -> the symbolic object stored there (all trees of the case)
+
+
+def snapshot_objects(*roots):
+  PRE_OBJS.clear()
+  for r in roots:
+    if r is None:
+      continue
+    for p_, n_ in sym_nodes(r):
+      PRE_OBJS[(id(r),) + tuple(p_)] = n_
+
+
+def payload_identity(updates):
+  """The payload must be THE objects: `new_value` is what the owning container holds now (a value handed
+  in is converted / copied on the way in: the event carries what was stored, never a plain dict / list and
+  never a node that lives elsewhere), `old_value` is the object that was stored there before the call."""
+  import pyglove as pg
+  bad = []
+  for k, u in updates.items():
+    nv, ov = u.new_value, u.old_value
+    tgt = u.target
+    holder = getattr(tgt, '_sym_attributes', tgt) if isinstance(tgt, pg.Object) else tgt
+    if isinstance(nv, (dict, list)) and not isinstance(nv, pg.Symbolic):
+      bad.append([list(k.keys), 'new_value is a plain %s, the container stores a symbolic one' % type(nv).__name__])
+    elif isinstance(nv, pg.Symbolic) and isinstance(holder, (pg.List, pg.Dict)):
+      if not any(nv is v for v in holder.sym_values()):
+        bad.append([list(k.keys), 'new_value (sym_path %s) is not an object held by the container that was written' % nv.sym_path])
+    if isinstance(ov, (dict, list)) and not isinstance(ov, pg.Symbolic):
+      bad.append([list(k.keys), 'old_value is a plain %s' % type(ov).__name__])
+    elif isinstance(ov, pg.Symbolic) and PRE_OBJS:
+      root_ = u.target.sym_root
+      was = PRE_OBJS.get((id(root_),) + tuple(u.path.keys))
+      if was is not None and was is not ov and not any(ov is x for x in PRE_OBJS.values()):
+        bad.append([list(k.keys), 'old_value is not an object that was in the tree before the call'])
+  return bad
+
+
 def on_event(rid, updates):
   """Every handler of the harness: log the event (canonicalised at once, tagged with the call it
   belongs to), then -- if the case says so and the nesting bound is not reached -- issue the nested call."""
   LOG.append({'recv': rid, 'call': RSTATE['stack'][-1],
-              'entries': [[list(k.keys), canon(u.old_value), canon(u.new_value)] for k, u in updates.items()]})
+              'entries': [[list(k.keys), canon(u.old_value), canon(u.new_value)] for k, u in updates.items()],
+              'ident': payload_identity(updates)})
   r = REACT.get(rid)
   if r is None or RSTATE['depth'] >= RSTATE['fuel']:
     return
@@ -1683,7 +1721,10 @@ class C09(Prop):
                 return True, None
               except Exception as e:    # pylint: disable=broad-except
                 return False, type(e).__name__
+          snapshot_objects(root, ext)
           ok, err = worker.run(call)
+          ident = [[e['recv']] + b_ for e in LOG for b_ in e.get('ident', [])]
+          PRE_OBJS.clear()
           events = canon_log(LOG)
           bound = [b_ for b_ in BOUND if b_ is not None]      # None: the _on_bound of a value under construction
           outs.append({'ok': ok, 'err': err, 'events': events, 'bound': bound,
@@ -1691,7 +1732,7 @@ class C09(Prop):
                        'reads': leafmap_reads(trees[which]),
                        'value': canon(trees[which]), 'pre': pre, 'other': canon(trees[other]), 'pre_other': pre_other,
                        'links': [[w_, p_] for w_ in ('tree', 'ext') for p_ in bad_links(trees[w_])],
-                       'tagged': [], 'nested': []})
+                       'tagged': [], 'nested': [], 'ident': ident})
         model = {'steps': [{'ok': o['ok'], 'events': o['events'], 'reads': o['reads'], 'value': o['value']} for o in outs]}
         return {'model': model, 'steps': outs}
       finally:
@@ -1731,6 +1772,7 @@ class C09(Prop):
       if 'keep' in step:
         kept.append(navigate(root, step['keep']))
       base_node = kept[step['detached']] if 'detached' in step else root
+      snapshot_objects(root, *kept)
       with contextlib.ExitStack() as stack:
         if not step['notify']:
           stack.enter_context(pg.notify_on_change(False))
@@ -1741,11 +1783,13 @@ class C09(Prop):
           err = type(e).__name__
       events = canon_log(LOG)
       tagged = [dict(e) for e in LOG]
+      ident = [[e['recv']] + b_ for e in LOG for b_ in e.get('ident', [])]
+      PRE_OBJS.clear()
       nested = list(RSTATE['calls'])
       bound = [b_ for b_ in BOUND if b_ is not None]      # None: the _on_bound of a value under construction
       if chosen:
         outs.append({'ok': ok, 'err': err, 'events': events, 'reads': [], 'value': canon(root), 'pre': pre, 'stale': [],
-                     'bound': bound, 'tagged': tagged, 'nested': nested})
+                     'bound': bound, 'tagged': tagged, 'nested': nested, 'ident': ident})
         continue
       got = read_all(root)
       placeholders = has_placeholder(root)
@@ -1763,7 +1807,7 @@ class C09(Prop):
       with_reads = not case.get('facts_only')
       outs.append({'ok': ok, 'err': err, 'events': events, 'reads': leafmap_reads(root) if with_reads else [],
                    'value': canon(root), 'pre': pre, 'stale': stale, 'bound': bound, 'tagged': tagged,
-                   'nested': nested})
+                   'nested': nested, 'ident': ident})
     model = {'steps': [{'ok': o['ok'], 'events': o['events'], 'reads': o['reads'], 'value': o['value'],
                         'err': o.get('err')} for o in outs]}
     return {'model': model, 'steps': outs}
@@ -1931,6 +1975,10 @@ class C09(Prop):
                 'what': '%s changed %s but no event reached the subscribing nodes %s' % (name, changed[:2], subs)}
       if not CLEAR_NOTIFIES[0]:
         return None
+    if o.get('ident'):
+      return {'signature': 'payload-not-the-stored-object:' + name,
+              'what': 'after %s the events carry values that are not the objects of the tree: %s' % (
+                  json.dumps(step['call'])[:150], o['ident'][:3])}
     ids = [e['recv'] for e in events]
     bound = o.get('bound')
     if bound is not None:
